@@ -109,6 +109,38 @@ class Gen:
         if r.random() < 0.15:
             ops.append("run %d" % r.choice([1, 5 * NS, 10 * NS, 123456789012, 86400 * NS * 30]))
             cur = max(cur, int(ops[-1].split()[1]))
+        if r.random() < (0.25 if focus == "C19" else 0.05):
+            # var slots freed in some order (expired or deleted), then clusters of fixed timers given the identical
+            # instant at the same time, at every distance below the 32767 s limit of the fixed path
+            self.count("scen:slot-recycle-cluster")
+            vs = []
+            for _ in range(r.randrange(2, 5)):
+                cb += 1
+                kind = r.choice(["add", "addmax", "addmin"])
+                t = cur + (33000 + r.randrange(0, 3000)) * NS if kind == "add" else cur + r.randrange(1, 40000) * NS
+                ops.append("%s %d %d" % (kind, t, cb))
+                keys[{"add": "F", "addmax": "M", "addmin": "N"}[kind]].append(len(ops) - 1)
+                vs.append((kind, len(ops) - 1, t))
+            if r.random() < 0.5:
+                order = list(vs)
+                if r.random() < 0.3:
+                    r.shuffle(order)
+                for kind, ix, t in order:
+                    ops.append("%s k%d" % ({"add": "del", "addmax": "delmax", "addmin": "delmin"}[kind], ix))
+            else:
+                cur = max(t for _, _, t in vs) + r.randrange(1, 100) * NS
+                ops.append("run %d" % cur)
+            for _ in range(r.randrange(1, 3)):
+                t = cur + r.choice([r.randrange(1, 100) * NS, r.randrange(20000, 32766) * NS, r.randrange(28672, 32766) * NS + r.randrange(0, NS),
+                                    r.randrange(1000, 28672) * NS])
+                for _ in range(r.randrange(2, 4)):
+                    cb += 1
+                    ops.append("add %d %d" % (t, cb))
+                    keys["F"].append(len(ops) - 1)
+                hint.append(t)
+            if r.random() < 0.8:
+                cur = cur + 32768 * NS + r.randrange(0, 100) * NS
+                ops.append("run %d" % cur)
         if r.random() < 0.07:
             # far var-slot timers re-queued by advance() with the 0x7FFF s clamp active, then deleted / updated /
             # left alone, slots reused, then time carried past every stand-in entry
